@@ -365,7 +365,7 @@ func Mutate(t *rapid.T, units [][]byte) ([][]byte, string) {
 			u = append(u, []byte{0})
 		}
 		i := rapid.IntRange(0, len(u)-1).Draw(t, "unit")
-		kind := rapid.SampledFrom([]string{"truncate-stream", "truncate-unit", "delete", "duplicate", "swap", "flip", "insert", "length-field", "ber-length", "ber-length", "ber-nest", "ascii-number", "splice", "repeat-many"}).Draw(t, "mut")
+		kind := rapid.SampledFrom([]string{"truncate-stream", "truncate-unit", "delete", "duplicate", "swap", "flip", "insert", "length-field", "ber-length", "ber-length", "ber-nest", "ascii-number", "splice", "repeat-many", "long-run"}).Draw(t, "mut")
 		if len(berLengths(u[i], 0, nil)) > 0 && rapid.Bool().Draw(t, "ber-aware") {
 			// the unit is BER (ldap, snmp): prefer the mutations that know the encoding
 			kind = rapid.SampledFrom([]string{"ber-length", "ber-nest"}).Draw(t, "bermut")
@@ -438,6 +438,18 @@ func Mutate(t *rapid.T, units [][]byte) ([][]byte, string) {
 				v := rapid.SampledFrom([]string{"0", "1", "65536", "536870912", "2147483647", "2147483648", "4294967295", "4294967296", "18446744073709551615", "99999999999999999999", "-1"}).Draw(t, "num")
 				u[i] = append(append(append([]byte(nil), u[i][:l[0]]...), []byte(v)...), u[i][l[1]:]...)
 			}
+		case "long-run":
+			// fixed-size input buffers: a run of one byte value (optionally opening an escape
+			// or option sequence that never ends) with a length around the usual buffer sizes
+			n := rapid.SampledFrom([]int{63, 64, 65, 127, 128, 129, 254, 255, 256, 257, 300, 511, 512, 513, 1023, 1024, 1025, 2048, 4095, 4096, 4097, 8192, 16384, 65535, 65536, 70000}).Draw(t, "runlen")
+			fill := rapid.SampledFrom([]byte{0x00, ' ', '0', ';', '[', 0x1b, 0x7f, 0x80, 0xff, 'A', '\r', '\t', ',', ':', '/', '.'}).Draw(t, "runbyte")
+			lead := rapid.SampledFrom([][]byte{nil, nil, {0x1b}, {0x1b, '['}, {0xff, 0xfa}, {'"'}, {'('}, {'<'}}).Draw(t, "runlead")
+			run := append(append([]byte(nil), lead...), bytes.Repeat([]byte{fill}, n)...)
+			p := rapid.IntRange(0, len(u[i])).Draw(t, "at")
+			if rapid.Bool().Draw(t, "at-start") {
+				p = 0
+			}
+			u[i] = append(u[i][:p:p], append(run, u[i][p:]...)...)
 		case "splice":
 			m := rapid.SampledFrom(magics).Draw(t, "magic")
 			u = append(u[:i], append([][]byte{append([]byte(nil), m...)}, u[i:]...)...)
